@@ -82,7 +82,7 @@ def gen_history(rng, stats, maxcalls=40, profile=None):
     Lean model for the classification)."""
     t = Track()
     ops = []
-    profile = profile or rng.weighted([("mixed", 50), ("queries", 20), ("lifecycle", 15), ("outoforder", 15)])
+    profile = profile or rng.weighted([("mixed", 46), ("queries", 18), ("lifecycle", 14), ("outoforder", 14), ("longaudio", 8)])
     stats["profiles"][profile] = stats["profiles"].get(profile, 0) + 1
     smalldict = rng.chance(0.7)
 
@@ -108,12 +108,12 @@ def gen_history(rng, stats, maxcalls=40, profile=None):
             a += " bestpath yes"
         return a
 
-    def do_init():
-        if rng.chance(0.12):
+    def do_init(force_good=False):
+        if not force_good and rng.chance(0.12):
             g = rng.choice(INIT_BAD)
             emit("init " + init_args(g), "init-bad")
             return
-        g = rng.choice(INIT_OK)
+        g = rng.choice(["jsgf", "fsg"]) if force_good else rng.choice(INIT_OK)
         emit("init " + init_args(g), "init-" + g)
         t.alive, t.refs, t.utt, t.search = True, 1, "i", g != "none"
         t.cfg = {"jsgf": "good" if g == "jsgf" else "none", "fsg": "good" if g == "fsg" else "none"}
@@ -147,8 +147,67 @@ def gen_history(rng, stats, maxcalls=40, profile=None):
         stats["blocks"][clip] = stats["blocks"].get(clip, 0) + 1
         return fmt, clip, off, ln
 
-    do_init()
-    n = rng.range(6, maxcalls)
+    def long_utterances():
+        """long-audio stratum: several whole-recording utterances on ONE decoder, alternating between streaming
+        (one chunk size per utterance, buffers grow: feature buffer 128 -> 256 -> 512 -> 1024 frames while the MFCC
+        ring stays small), buffering without search, and a single full_utt block of varied length (MFCC buffer
+        resized to the utterance) - in both orders, with queries at random points.  The recording wraps around,
+        so lengths beyond 2.8 s are repetitions of it."""
+        modes = rng.choice([["stream", "full"], ["full", "stream"], ["stream", "full", "stream"], ["full", "stream", "full"],
+                            ["stream", "full", "full"], ["buffer", "full"], ["stream", "stream", "full"],
+                            ["full", "full"], ["stream", "buffer", "full"]])
+        for mode in modes:
+            emit("start", "start")
+            t.utt, t.blocks, t.full, t.everutt, t.pos, t.speech = "s", 0, False, True, 0, 0
+            t.invalidate("result"); t.invalidate("align")
+            fmt = "f32" if rng.chance(0.25) else "i16"
+            if mode == "full":
+                ln = rng.choice([13000, 16000, 20500, 24000, 30000, 36000, GOLEN, 52000, 60000, 2 * GOLEN, rng.range(12900, 2 * GOLEN)])
+                emit(f"proc {fmt} go 0 {ln} {1 if rng.chance(0.1) else 0} 1", "proc-long-full")
+                t.blocks, t.full, t.speech = 1, True, ln
+            else:
+                total = rng.choice([21000, 30000, GOLEN, GOLEN, 60000, 2 * GOLEN])
+                chunk = rng.choice([1024, 2048, 2048, 4000, 4096, 8000, 16000, total])
+                if total // chunk > 45:
+                    chunk = 4096
+                ns = 1 if mode == "buffer" else 0
+                pos = 0
+                while pos < total:
+                    ln = min(chunk, total - pos)
+                    emit(f"proc {fmt} go {pos % GOLEN} {ln} {ns} 0", "proc-long-" + mode)
+                    pos += ln
+                    t.blocks += 1
+                    if rng.chance(0.06):
+                        q = rng.choice(["hyp", "nframes", "json 0", "lattice", "getcmn 1"])
+                        emit(q, q.split()[0])
+                        if q == "lattice":
+                            t.invalidate("dag")
+                t.speech = total
+            stats["blocks"]["long-" + mode] = stats["blocks"].get("long-" + mode, 0) + 1
+            t.invalidate("dag"); t.invalidate("align")
+            if rng.chance(0.9):
+                emit("end", "end")
+                t.utt = "e"
+                for q in ["hyp", "json 1", "align", "lattice", "json 0"]:
+                    if rng.chance(0.3):
+                        emit(q, q.split()[0] + (q.split()[1] if q.startswith("json") else ""))
+                        if q == "lattice":
+                            t.invalidate("dag")
+                        if q in ("json 1", "align"):
+                            t.invalidate("align")
+            else:
+                break   # the random tail continues (or frees) in the middle of the long utterance
+
+    if profile == "longaudio":
+        do_init(force_good=True)
+        if rng.chance(0.3):
+            emit("jsgf " + rng.choice(["go", "move", "star", "long"]), "jsgf-ok")
+            t.invalidate("result")
+        long_utterances()
+        n = min(len(ops) + rng.range(2, 10), max(maxcalls, len(ops) + 2))
+    else:
+        do_init()
+        n = rng.range(6, maxcalls)
     while len(ops) < n:
         if not t.alive:
             # decoder gone (or never created): only releases, the null-argument calls, or a new decoder
@@ -637,9 +696,17 @@ def model_replay(tr):
     """run the model on a transcript; -> list of (index in tr, model call, model ret, model state, class)"""
     lines, idx = [], []
     for i, (call, ret, st) in enumerate(tr):
-        if ret is None or ret.startswith("skip"):
+        if ret is not None and ret.startswith("skip"):
             continue
-        m = to_model(call, ret, st)
+        if ret is None:
+            # the process died inside this call: it is still classified by the model (a crash in an
+            # out-of-protocol call is not a violation); the outcome flags are irrelevant for that
+            try:
+                m = to_model(call, "null", "")
+            except (IndexError, KeyError, ValueError):
+                m = None
+        else:
+            m = to_model(call, ret, st)
         if m is None:
             continue
         lines.append(m)
@@ -666,6 +733,8 @@ def compare(tr):
         classes.append((call, cls))
         if cls.startswith("oop") or cls == "bad":
             div.append(("out-of-protocol call in transcript (generator/harness error)", i, call, ret, st, m, mret, mst, cls))
+            break
+        if ret is None:
             break
         if canon_ret(ret) != mret or st != mst:
             div.append(("return class / state differs", i, call, ret, st, m, mret, mst, cls))
